@@ -14,9 +14,9 @@ Model
   baton is passed with one semaphore per thread.
 * Scheduling points are exactly the synchronisation operations
   `Event.is_set/set/clear/wait` and `Thread.start/join/is_alive` (plus thread begin and thread exit).
-  The point is taken BEFORE the operation executes: the thread announces the operation it is about
-  to perform, the scheduler picks who runs next, and the operation executes (atomically together with
-  the code that follows it up to the next point) when its thread is picked.
+  A point is taken BEFORE the operation executes: the thread announces the operation it is about
+  to perform, the scheduler picks who runs next, and the operation executes when its thread is picked
+  (so logs and oracles see effects, never intents).
 * After-points (after_points=True, the default): a second scheduling point is taken immediately AFTER each
   operation has taken effect, so the plain code between two operations of a thread is attributed to the earlier
   or to the later operation by choice: "writer executed clear(), recorder runs update()/stop(), writer goes on
